@@ -9,6 +9,9 @@ import (
 )
 
 func init() {
+	families["conc_write"] = genConcWrite
+	families["fault_transient"] = genFaultTransient
+	families["fault_then_merge"] = genFaultThenMerge
 	families["conc_persist"] = genConcPersist
 	families["faults_w"] = genFaultsW
 	families["fault_read"] = genFaultRead
@@ -278,12 +281,19 @@ func genConcFree(r *rand.Rand, i int) Scenario {
 			ops = append(ops, Op{Op: "stored", Seg: seg, N: r.Intn(len(b1))})
 		}
 		hb := 1000*(g+1) + 500
-		hand := []Op{{Op: "pl_open", Seg: seg, Field: "h", Term: B([]byte("nl")), Pl: hb}, {Op: "it_open", Pl: hb, It: hb + 1, Freq: true, Norm: true, Locs: true},
+		hand := []Op{
+			// an absent term first: the reader is handed the shared empty iterator and recycles it from then on
+			{Op: "pl_open", Seg: seg, Field: "h", Term: B([]byte("absent")), Pl: hb + 3}, {Op: "it_open", Pl: hb + 3, It: hb + 1, Freq: true, Norm: true, Locs: true},
+			{Op: "it_next", It: hb + 1},
+			{Op: "pl_open", Seg: seg, Field: "h", Term: B([]byte("nl")), Pl: hb}, {Op: "it_open", Pl: hb, It: hb + 1, Prealloc: hb + 1, Freq: true, Norm: true, Locs: true},
 			{Op: "it_next", It: hb + 1}, {Op: "it_next", It: hb + 1},
 			{Op: "pl_open", Seg: seg, Field: "h", Term: B([]byte("wl")), Pl: hb + 2}, {Op: "it_open", Pl: hb + 2, It: hb + 1, Prealloc: hb + 1, Freq: true, Norm: true, Locs: true}}
 		for k := 0; k < len(b1)+1 && k < 12; k++ {
 			hand = append(hand, Op{Op: "it_next", It: hb + 1})
 		}
+		// and a lookup of another absent term with a fresh iterator: nothing, whatever the others recycled
+		hand = append(hand, Op{Op: "pl_open", Seg: seg, Field: "h", Term: B([]byte("absent2")), Pl: hb + 4},
+			Op{Op: "it_open", Pl: hb + 4, It: hb + 5, Freq: true, Norm: true, Locs: true}, Op{Op: "it_next", It: hb + 5}, Op{Op: "it_next", It: hb + 5})
 		if r.Intn(2) == 0 {
 			ops = append(hand, ops...)
 		} else {
@@ -448,7 +458,12 @@ func genFaultReadBig(r *rand.Rand, i int) Scenario {
 	}
 	sc.Ops = append(sc.Ops, Op{Op: "pl_open", Seg: 2, Field: "g", Term: B([]byte("common")), Pl: 10},
 		Op{Op: "it_open", Pl: 10, It: 20, Freq: true, Norm: true, Locs: true}, Op{Op: "it_next", It: 20}, Op{Op: "it_next", It: 20})
-	sc.Ops = append(sc.Ops, Op{Op: "close_file", Seg: 2})
+	if i%2 == 0 {
+		sc.Ops = append(sc.Ops, Op{Op: "close_file", Seg: 2})
+	} else {
+		// the storage fails after a few more reads: in the middle of loading the next chunk's header or data
+		sc.Ops = append(sc.Ops, Op{Op: "fail_after", Seg: 2, N: r.Intn(14)})
+	}
 	for _, d := range []int{1050, 7, 1024, 16, 25, n - 1, 34, 0} {
 		sc.Ops = append(sc.Ops, Op{Op: "dv_visit", R: 1, N: d})
 	}
@@ -488,5 +503,126 @@ func genConcPersist(r *rand.Rand, i int) Scenario {
 	sc.Ops = append(sc.Ops, Op{Op: "par", Groups: groups}, Op{Op: "persist", Seg: seg, File: 200},
 		Op{Op: "load", File: 100, Seg: 50, Backing: "mem"}, Op{Op: "observe", Seg: 50, Level: "light"},
 		Op{Op: "load", File: 111, Seg: 51, Backing: "mem"}, Op{Op: "observe", Seg: 51, Level: "light"})
+	return sc
+}
+
+// fault_then_merge: merges abandoned half-way (the destination fails at various offsets, or the close channel is
+// closed) followed by reads of the INPUT segments and by a healthy merge of the same inputs - nothing an abandoned
+// merge leaves behind (pooled scratch, dictionaries it opened) may show (C08, C15, C02)
+func genFaultThenMerge(r *rand.Rand, i int) Scenario {
+	cfg := smallCfg(r)
+	cfg.MinDocs, cfg.MaxDocs = 2, 6
+	cfg.PNoID = 0
+	sc := Scenario{Name: fmt.Sprintf("fault_then_merge-%d", i), NormKind: "code", Universe: universeOf(&cfg), Tags: []string{"fault_then_merge"}}
+	seq := 0
+	b1 := genBatch(r, &cfg, &seq)
+	b2 := genBatch(r, &cfg, &seq)
+	sc.Batches = []Batch{b1, b2}
+	sc.Ops = append(sc.Ops, Op{Op: "build", Seg: 1, Batch: 0, Mode: pickMode(r)}, Op{Op: "build", Seg: 2, Batch: 1, Mode: pickMode(r)})
+	if i%2 == 1 {
+		sc.Ops = append(sc.Ops, Op{Op: "persist", Seg: 1, File: 1}, Op{Op: "load", File: 1, Seg: 1, Backing: []string{"mem", "file"}[r.Intn(2)]})
+	}
+	sc.Ops = append(sc.Ops, Op{Op: "digest"})
+	d1, d2 := randDropsNotAll(r, len(b1)), randDropsNotAll(r, len(b2))
+	offs := []int{-1, 30, 120, 250, 400, 600, 800, 1000, 1300, 1700}
+	r.Shuffle(len(offs), func(a, b int) { offs[a], offs[b] = offs[b], offs[a] })
+	for k, n := range offs[:5] {
+		sc.Ops = append(sc.Ops, Op{Op: "merge_fail", In: []int{1, 2}, Drops: []DropSpec{d1, d2}, Mode: 0, Buf: []int{1, 16, 64}[r.Intn(3)], N: n},
+			Op{Op: "observe", Seg: 1 + k%2, Level: "light"},
+			Op{Op: "merge", File: 10 + k, In: []int{1, 2}, Drops: []DropSpec{d1, d2}, Mode: 0, Buf: 64},
+			Op{Op: "load", File: 10 + k, Seg: 10 + k, Backing: "mem"}, Op{Op: "observe", Seg: 10 + k, Level: "light"})
+	}
+	sc.Ops = append(sc.Ops, Op{Op: "digest"}, Op{Op: "observe", Seg: 14, Level: "full"})
+	return sc
+}
+
+// fault_transient: exactly one read of a file-backed segment fails and the storage works again: the call that hit it
+// reports an error (or nothing), and every later call - of the same block, the same field, through the same pooled
+// scratch state - answers correctly or with an error, never with another document's data and never with a panic (C19)
+func genFaultTransient(r *rand.Rand, i int) Scenario {
+	n := 256 + r.Intn(10)
+	b := make(Batch, n)
+	for d := 0; d < n; d++ {
+		id := []byte(fmt.Sprintf("doc-%03d", d))
+		pad := make([]byte, 20+(d%7)*13)
+		for k := range pad {
+			pad[k] = byte('a' + (d+k)%26)
+		}
+		doc := Doc{{Name: "_id", Len: 1, Stored: true, Value: B(id), Terms: []TermOcc{{Term: B(id), Freq: 1, Locs: []Loc{}}}},
+			{Name: "body", Len: 2, Stored: true, Value: B(pad), Terms: []TermOcc{{Term: B([]byte("common")), Freq: 2, Locs: []Loc{{Field: "", Pos: 1, Start: 0, End: 6}}}}}}
+		if d%3 == 0 {
+			doc = append(doc, FieldInst{Name: "tag", Len: 1, DV: true, Value: Bytes{}, Terms: []TermOcc{{Term: B([]byte(fmt.Sprintf("t%d", d%5))), Freq: 1, Locs: []Loc{}}}})
+		}
+		b[d] = doc
+	}
+	sc := Scenario{Name: fmt.Sprintf("fault_transient-%d", i), NormKind: "code", Universe: []string{"_id", "body", "tag"}, Batches: []Batch{b}, Tags: []string{"fault_transient"}}
+	sc.Ops = append(sc.Ops, Op{Op: "watchdog", Watchdog: 3000}, Op{Op: "build", Seg: 1, Batch: 0, Mode: []uint32{0, 100, 3}[i%3]},
+		Op{Op: "persist", Seg: 1, File: 1}, Op{Op: "load", File: 1, Seg: 2, Backing: "file"})
+	// warm some state on block 0 / chunk 0
+	warm := [][]Op{
+		{{Op: "stored", Seg: 2, N: 5}},
+		{{Op: "stored", Seg: 2, N: 5}, {Op: "dv_open", Seg: 2, R: 1, Fields: []string{"tag"}}, {Op: "dv_visit", R: 1, N: 0}},
+		{{Op: "dict", Seg: 2, Field: "tag"}, {Op: "pl_open", Seg: 2, Field: "body", Term: B([]byte("common")), Pl: 10}, {Op: "it_open", Pl: 10, It: 20, Freq: true, Norm: true, Locs: true}, {Op: "it_next", It: 20}},
+		{},
+	}[i%4]
+	sc.Ops = append(sc.Ops, warm...)
+	sc.Ops = append(sc.Ops, Op{Op: "fail_once", Seg: 2, N: r.Intn(4)})
+	// the call that meets the failure, then calls that touch the same block / field / objects
+	switch (i / 4) % 3 {
+	case 0:
+		for _, d := range []int{200, 200, 255, 128, 129, 5, 0, 127, 200} {
+			sc.Ops = append(sc.Ops, Op{Op: "stored", Seg: 2, N: d})
+		}
+	case 1:
+		sc.Ops = append(sc.Ops, Op{Op: "dict", Seg: 2, Field: "body"}, Op{Op: "dict", Seg: 2, Field: "body"}, Op{Op: "contains", Seg: 2, Field: "body", Term: B([]byte("common"))},
+			Op{Op: "pl_open", Seg: 2, Field: "body", Term: B([]byte("common")), Pl: 11}, Op{Op: "it_open", Pl: 11, It: 21, Freq: true, Norm: true, Locs: true},
+			Op{Op: "it_next", It: 21}, Op{Op: "it_next", It: 21}, Op{Op: "it_adv", It: 21, D: 150}, Op{Op: "it_next", It: 21},
+			Op{Op: "match", Seg: 2, Pairs: []Pair{{"body", B([]byte("common"))}, {"_id", B([]byte("doc-007"))}}})
+	case 2:
+		sc.Ops = append(sc.Ops, Op{Op: "dv_open", Seg: 2, R: 2, Fields: []string{"tag", "_id"}})
+		for _, d := range []int{3, 6, 252, 255, 0, 9} {
+			sc.Ops = append(sc.Ops, Op{Op: "dv_visit", R: 2, N: d})
+		}
+		sc.Ops = append(sc.Ops, Op{Op: "stats", Seg: 2, Field: "tag"}, Op{Op: "fields", Seg: 2})
+	}
+	if len(warm) > 2 && warm[0].Op == "dict" {
+		sc.Ops = append(sc.Ops, Op{Op: "it_next", It: 20}, Op{Op: "it_adv", It: 20, D: 140}, Op{Op: "it_next", It: 20})
+	}
+	// the storage is healthy again: a merge of the segment and a fresh look at everything cheap
+	sc.Ops = append(sc.Ops, Op{Op: "stored", Seg: 2, N: 200}, Op{Op: "stored", Seg: 2, N: 1}, Op{Op: "dict", Seg: 2, Field: "tag"})
+	return sc
+}
+
+// conc_write: builders, mergers (also with a one-byte merge buffer into a slow destination) and persists running at
+// the same time on different goroutines; every file produced must be the one the same call produces alone (C04, C09,
+// C11, C14). Also run under the race detector.
+func genConcWrite(r *rand.Rand, i int) Scenario {
+	cfg := defaultCfg(r)
+	cfg.MinDocs, cfg.MaxDocs = 2, 7
+	sc := Scenario{Name: fmt.Sprintf("conc_write-%d", i), NormKind: "code", Universe: universeOf(&cfg), Tags: []string{"conc_write"}}
+	seq := 0
+	b1, b2, b3 := genBatch(r, &cfg, &seq), genBatch(r, &cfg, &seq), genBatch(r, &cfg, &seq)
+	sc.Batches = []Batch{b1, b2, b3}
+	m1, m2, m3 := pickMode(r), pickMode(r), pickMode(r)
+	d1, d2 := randDropsNotAll(r, len(b1)), randDrops(r, len(b2))
+	sc.Ops = append(sc.Ops, Op{Op: "build", Seg: 1, Batch: 0, Mode: m1}, Op{Op: "build", Seg: 2, Batch: 1, Mode: m2}, Op{Op: "build", Seg: 3, Batch: 2, Mode: m3},
+		// what each call produces alone
+		Op{Op: "merge", File: 1, In: []int{1, 2}, Drops: []DropSpec{d1, d2}, Mode: 0, Buf: 64}, Op{Op: "persist", Seg: 3, File: 2})
+	groups := [][]Op{
+		{{Op: "merge", File: 11, In: []int{1, 2}, Drops: []DropSpec{d1, d2}, Mode: 0, Buf: 1, Slow: true}},
+		{{Op: "build", Seg: 21, Batch: 2, Mode: m3}, {Op: "build", Seg: 22, Batch: 0, Mode: m1}, {Op: "build", Seg: 23, Batch: 1, Mode: m2}, {Op: "build", Seg: 24, Batch: 2, Mode: m3}},
+		{{Op: "merge", File: 12, In: []int{1, 2}, Drops: []DropSpec{d1, d2}, Mode: 0, Buf: []int{1, 3, 16}[r.Intn(3)], Slow: true}, {Op: "persist", Seg: 3, File: 13}},
+	}
+	if r.Intn(2) == 0 {
+		groups = append(groups, []Op{{Op: "merge", File: 14, In: []int{3, 2}, Drops: []DropSpec{{Kind: "nil"}, d2}, Mode: 0, Buf: 2, Slow: true}})
+	}
+	sc.Ops = append(sc.Ops, Op{Op: "par", Groups: groups})
+	for _, f := range []int{11, 12} {
+		sc.Ops = append(sc.Ops, Op{Op: "load", File: f, Seg: 30 + f, Backing: "mem"}, Op{Op: "observe", Seg: 30 + f, Level: "full"})
+	}
+	sc.Ops = append(sc.Ops, Op{Op: "load", File: 13, Seg: 50, Backing: "mem"}, Op{Op: "observe", Seg: 50, Level: "light"})
+	for _, h := range []int{21, 22, 23, 24} {
+		sc.Ops = append(sc.Ops, Op{Op: "observe", Seg: h, Level: "light"})
+	}
 	return sc
 }
